@@ -105,6 +105,7 @@ Verdict(r) ==
                wrong == {k \in judged : present(k) /\ Map[k][2] \in reported /\ ~ValueOK(Map[k], rawOf(k), cellOf(Map[k][2]))}
            IN IF fr.sawerr THEN (IF r.out.exc # "ResponseError" THEN Fail("expected-ResponseError", 0)
                                  ELSE IF Props(bank).latch /\ fin[3] = 170 THEN Fail("left-latched-after-failed-read", 0)
+                                 ELSE IF ~SameExceptLock(fin, FinalExpected(r)) THEN Fail("memory-changed-by-failed-read", 0)
                                  ELSE Pass)
               \* no answer to the read of location 0: the bank does not exist for this unit
               ELSE IF \E j \in 1..Len(fr.reads) : fr.reads[j][1] = 0 /\ fr.reads[j][2] = "none"
@@ -120,7 +121,9 @@ Verdict(r) ==
       [] r.seq = "write" ->
            LET row == Map[RowIx(r.unit.bank, r.value)]
                writable == \A l \in LocsOf(row) : Writable(TypeAt(row, l))
-               lockable == \E l \in LocsOf(row) : Lockable(TypeAt(row, l))
+               \* the write opens the lock byte: a lockable location, or force_unlock (then the lock byte is part of the deal:
+               \* written 0x55 and 0xFF again)
+               lockable == (\E l \in LocsOf(row) : Lockable(TypeAt(row, l))) \/ (r.force = 1 /\ Props(r.unit.bank).lock)
                n == Len(r.wdata)
                stored == /\ \A j \in 1..n : fin[row[3] + j] = r.wdata[j]
                          /\ \A l \in 0..254 : (l # 2 /\ (l < row[3] \/ l >= row[3] + n)) => fin[l + 1] = r.unit.mem[l + 1]
